@@ -542,7 +542,7 @@ def session_events(obs_list, tag=""):
                 e["msg"] = re.sub(r"/tmp/lqh\d+", "<tmp>", ev.get("msg", ""))
             if ill_formed(e["prog"]):
                 e["illformed"] = True
-            if o.get("noref"):
+            if o.get("noref") or ev["t"] in (o.get("noreft") or []):
                 e["noref"] = True
             if o.get("strict"):
                 e["strict"] = True
